@@ -32,6 +32,7 @@ operands are untouched. The number and the positions of the checks inside an ope
 model, so the theorems cover every `k`; the tie to the code is the enumeration of every `k` on real programs.
 -/
 import MV.Proof.Progress
+import MV.Model.CancelSites
 
 namespace MV.Progress.C15
 open MV.Progress MV.Gen.Phases
@@ -523,5 +524,96 @@ example :
     progressMonitor [{ mode := .fromMesh, obs := [⟨0, 6, 0, 0⟩, ⟨5, 6, 0, 0⟩], cancelled := true, last := ⟨6, 6, 0, 0⟩ }] = false ∧
     progressMonitor [{ mode := .multi, obs := [⟨0, 0, 0, 0⟩, ⟨0, 11, 0, 1⟩, ⟨11, 11, 1, 1⟩, ⟨0, 22, 0, 2⟩], cancelled := false, last := ⟨22, 22, 2, 2⟩ }] = true := by
   decide
+
+/-! ## 6. the cancellation discipline of the source (regenerated on every run) -/
+
+section sites
+open MV.CancelSites MV.Gen.CancelSites
+
+/-- the syntactic discipline implies the hypothesis `guarded` of `cancel_all_or_nothing` for the
+translated program: every item that can leave partial state behind has a later check -/
+theorem mem_check_toStmts (rest : List Item) (hr : Item.check ∈ rest) : Stmt.check ∈ toStmts rest := by
+  induction rest with
+  | nil => cases hr
+  | cons x xs ih =>
+    rcases List.mem_cons.mp hr with h | h
+    · subst h; simp [toStmts]
+    · have := ih h
+      cases x with
+      | check => simp [toStmts]
+      | loop => simp [toStmts, this]
+      | work => simp [toStmts, this]
+      | call c =>
+        simp only [toStmts]
+        split <;> simp [this]
+
+theorem contains_check_toStmts (rest : List Item) (hr : rest.contains .check = true) :
+    (toStmts rest).contains Stmt.check = true := by
+  have : Item.check ∈ rest := by simpa using hr
+  simpa using mem_check_toStmts rest this
+
+theorem bodyOk_guarded (items : List Item) (h : bodyOk items = true) : guarded (toStmts items) = true := by
+  induction items with
+  | nil => rfl
+  | cons it rest ih =>
+    simp only [bodyOk, Bool.and_eq_true] at h
+    obtain ⟨h1, h2⟩ := h
+    have ihr := ih h2
+    cases it with
+    | loop =>
+      have h1' : rest.contains .check = true := by simpa [needsCheck] using h1
+      simp only [toStmts, guarded, Bool.and_eq_true]
+      exact ⟨contains_check_toStmts rest h1', ihr⟩
+    | call c =>
+      simp only [toStmts]
+      cases hv : valueCallees.contains c with
+      | true =>
+        simpa [guarded] using ihr
+      | false =>
+        have hnc : needsCheck (Item.call c) = true := by
+          show (!valueCallees.contains c) = true
+          rw [hv]; rfl
+        have h1' : rest.contains .check = true := by rw [hnc] at h1; simpa using h1
+        simp only [Bool.false_eq_true, if_false, guarded, Bool.and_eq_true]
+        exact ⟨contains_check_toStmts rest h1', ihr⟩
+    | check => simpa [toStmts, guarded] using ihr
+    | work => simpa [toStmts, guarded] using ihr
+
+/-- **the discipline holds for every function of the current source**: each context-aware loop and each
+call of an in-place helper is followed by a later `IsCancelled` check in the same function, except in the
+reviewed tail helpers, all of which are called (so their call sites carry the obligation).  Kernel
+evaluation over the GENERATED table. -/
+theorem cancel_sites_guarded : fns.all fnOk = true ∧ tailLive fns = true := by decide +kernel
+
+/-- hence `cancel_all_or_nothing` applies to the program of every function of the source that is not a reviewed tail helper or entry-checked producer: for
+every cancellation point it returns Cancelled or exactly the uncancelled value, never a cut-short loop -/
+theorem source_functions_all_or_nothing (f : Fn) (hf : f ∈ fns) (ht : exempt f = false)
+    (fuel : Fuel) (b : Built) (hb : b.partialOutput = false) :
+    ((exec (toStmts f.body) fuel b).1 = .cancelled ∨ (exec (toStmts f.body) fuel b).1 = (exec (toStmts f.body) none b).1) ∧
+    ∃ b', (exec (toStmts f.body) none b).1 = .value b' ∧ b'.partialOutput = false := by
+  have hall := cancel_sites_guarded.1
+  have hok : fnOk f = true := List.all_eq_true.mp hall f hf
+  have hb' : bodyOk f.body = true := by
+    simp only [exempt, Bool.or_eq_false_iff] at ht
+    simp only [fnOk, fnOkIn, Bool.or_eq_true] at hok
+    rcases hok with (h | h) | h
+    · rw [ht.1] at h; cases h
+    · exact h
+    · exfalso
+      have hn := ht.2
+      rw [List.any_eq_false] at hn
+      obtain ⟨p, hp, hq⟩ := List.any_eq_true.mp h
+      have := hn p hp
+      simp only [Bool.and_eq_true] at hq
+      simp [hq.1] at this
+  exact cancel_all_or_nothing _ (bodyOk_guarded _ hb') fuel b hb
+
+/-- non-vacuity and sensitivity: `SortGeometry` is in the table and guarded; the shape of the repaired
+Refine defect (`SortGeometry(ctx)` as the last context-aware item, no check behind it) is rejected -/
+example : fns.any (fun f => f.name == "SortGeometry" && bodyOk f.body) = true := by decide +kernel
+example : bodyOk [.work, .check, .work, .call "SortGeometry", .work] = false := by decide
+example : bodyOk [.work, .check, .work, .call "SortGeometry", .check, .work] = true := by decide
+
+end sites
 
 end MV.Progress.C15
